@@ -1146,6 +1146,15 @@ fn probe() -> Obs {
     let mut s = sauce_variant(0, 1, 1);
     s.use_ice = true;
     out.push(sauce_rest(&s));
+    // the character map of rotate_layer: a 256 x 1 layer holding every code becomes a 1 x 256 layer
+    let mut st = EditState::from_buffer(Buffer::new((256, 1)));
+    for c in 0..256u32 {
+        st.get_buffer_mut().layers[0].set_char((c as i32, 0), AttributedChar::new(char::from_u32(c).unwrap(), TextAttribute::new(7, 1)));
+    }
+    st.rotate_layer().map_err(|e| e.to_string())?;
+    for c in 0..256i32 {
+        out.push(st.get_buffer().layers[0].get_char((0, c)).ch as i64);
+    }
     Ok(out)
 }
 
